@@ -320,7 +320,9 @@ NewSpace(op) ==
 RenameCells(op) ==
     /\ Idle /\ op.op = "rename_cells"
     /\ LET s == op.s  c == op.c  c2 == op.c2 IN
-       IF c \notin DOMAIN M.cm[s] \/ M.cm[s][c].derived \/ ~CanAddCells(M, s, c2)
+       IF \/ c \notin DOMAIN M.cm[s] \/ M.cm[s][c].derived \/ ~CanAddCells(M, s, c2)
+          \* "is a sub Cells of ...": a cells that overrides one of a base cannot be renamed
+          \/ LET mro == MroB(M.bases, s) IN \E i \in 2..Len(mro) : c \in DOMAIN M.cm[mro[i]]
        THEN Done(op, "rejected", M)
        ELSE LET Rn(v) == IF v = CeObj(s, <<>>, c) THEN CeObj(s, <<>>, c2) ELSE v
                 M1 == [M EXCEPT !.cm[s] = Upd(Drop(@, {c}), c2, M.cm[s][c]),
